@@ -5,7 +5,7 @@
    computed with its reference implementation (any other point gives the empty byte string). *)
 From Coq Require Import List NArith ZArith Bool Arith.
 From Coq Require Import Strings.Byte Strings.String.
-Require Import CU.model.Prim CU.model.Pin CU.model.Des CU.spec.PinSpec.
+Require Import CU.model.Prim CU.model.Pin CU.model.Des CU.model.Aes CU.spec.PinSpec.
 Require Import CU.extract.Text.
 Import ListNotations.
 
@@ -31,10 +31,12 @@ Fixpoint tbl_cipher (tbl : list (bytes * bytes * bytes)) (k d : bytes) : bytes :
   | [] => []
   | (k', d', o) :: r => if bytes_eqb k k' && bytes_eqb d d' then o else tbl_cipher r k d
   end.
-(* the cipher: a table of (key, data, result) answers supplied by the harness, or the Triple-DES model itself *)
+(* the cipher: a table of (key, data, result) answers supplied by the harness, or the Triple-DES / AES model itself *)
 Definition p_tbl (t : text) : option (bytes -> bytes -> bytes) :=
   if text_eqb t (T "TDES") then Some tdes_ecb_enc
   else if text_eqb t (T "TDESD") then Some tdes_ecb_dec
+  else if text_eqb t (T "AES") then Some aes_ecb_enc
+  else if text_eqb t (T "AESD") then Some aes_ecb_dec
   else option_map tbl_cipher (p_list p_triple t).
 
 Definition pr_pair (x : str * str) : text := pr_str_e (fst x) ++ T "," ++ pr_str_e (snd x).
